@@ -7,9 +7,13 @@ from .. import common, gen, impl
 from .. import framework as fw
 
 GEN_SECTIONS = ["Tables", "Regexes", "Unicode"]
+LEAVES = {'LoopRoute': []}
+IMP = ['fromFile']  # functions dumped as terms of the imperative embedding, run against CPython on every run
 TRUSTED = [
     "Lean 4 kernel; axioms ⊆ {propext, Classical.choice, Quot.sound}",
     "translator: header → (instrument, difficulty) table; hand model of the routing loop with want_tracks",
+    "translate_imp: Chart.from_file dumped as a term (class-level constants and the title table folded to their live values); "
+    "Tie/LoopRoute proves it equal to fileV / routeFold and proves the selection law on that fold",
     "tied by whole-chart differential execution with selections",
 ]
 ASSUMPTIONS = ["restriction law: the unrestricted parse succeeds"]
